@@ -33,6 +33,10 @@ def cells(tier):
     out.append(cell("s1 A2 flush nocb", sc, MON))
     sc = scen(pool(2, "SimpleTaskPool", ecb="plain", ccb="plain"), [[S("S", 3)], [["stop", 1]], [P]], outcomes=["ret"])
     out.append(cell("simple s2 S3 stop1", sc, MON))
+    # cancel() issued by the scenario (not the probe), followed at once by flush(): the named tasks are cancelled for good
+    for size in [1, 2]:
+        sc = scen(pool(size), [[A("A", 2)], [cancel(rid("A", 1)), FLUSH], [cancel(rid("A", 0)), FLUSH_RE]], outcomes=["ret"], ecb="plain", ccb="plain")
+        out.append(cell(f"s{size} A2|cancelA1,flush|cancelA0,flushRE (cancel then flush)", sc, MON))
     # several start() rounds on one SimpleTaskPool (ended, never flushed ids of an earlier round stay "already ended")
     sc = scen(pool(2, "SimpleTaskPool", ecb="plain", ccb="plain"), [[S("S", 1), S("T", 1), S("U", 1)], [["stop", 1]], [P]], outcomes=["ret"])
     out.append(cell("simple s2 S1,T1,U1 stop1 (rounds)", sc, MON))
